@@ -79,6 +79,17 @@ if getattr(yaml, '__with_libyaml__', False):
         pass
     CAppLoader.add_implicit_resolver('!wild', _re.compile(r'^w[a-z]*$'), None)
     CAppLoader.add_constructor('!wild', lambda l, n: ['wild', l.construct_scalar(n)])
+class AppState(yaml.YAMLObject):
+    """An application object whose state is built by deep construction (it defines __setstate__)."""
+    yaml_tag = '!appstate'
+    yaml_loader = [AppLoader] + ([CAppLoader] if getattr(yaml, '__with_libyaml__', False) else [])
+    yaml_dumper = AppDumper
+
+    def __setstate__(self, state):
+        self.__dict__.update(state)
+        self.restored = True
+
+
 APP_TEXTS = ['- word\n- yes\n- 1.2.3\n- 12\n- ~\n- w\n', 'pk: {a: 1}\nq: wide\n', 'yes: no\n-1: 0x1F\n', 'w: [was, 2001-01-01, n, y, 1.5]\n']
 
 
@@ -393,6 +404,9 @@ def check_prefix(ctx, calls, refs, ci, items, exc, log, why):
 DOCS = ['--- a\n', '--- [1, 2]\n', '--- {k: v}\n', '--- &a [x]\n', '--- &a {k: &b v, l: *b}\n', '--- *a\n', '--- [*b]\n', '--- !e!t x\n', '--- !!str 1\n', '--- !x y\n',
         '%TAG !e! tag:e.com,2000:\n--- !e!t z\n', '%TAG ! !my-\n--- !x y\n', '%TAG !! tag:other.org,2002:\n--- !!str q\n', '%YAML 1.1\n--- v\n', '%YAML 1.1\n%TAG !e! tag:f.com,2000:\n--- !e!u w\n',
         '---\n', '--- ~\n', '--- |\n  lit\n', '--- >+\n  keep\n\n', '--- "dq"\n', "--- 'sq'\n", '--- &r [*r]\n', '--- 1\n', '--- &a 1\n--- *a\n'[:9], '--- {<<: {a: 1}, b: 2}\n',
+        # deep construction (__setstate__, apply arguments) that meets an already constructed node, then recursive documents
+        '---\n- &s [1, 2]\n- !!python/object:vf.gen.shapes.StateDict {x: *s, y: 1}\n', '--- !appstate {x: &w [1], y: *w}\n', '--- &t {me: *t, l: &u [*u, *t]}\n',
+        '---\n- &l [1]\n- !!python/object/apply:vf.gen.shapes.func [*l]\n', '--- &q {k: [&z {a: 1}, *z]}\n', '--- &o !!omap [a: *o]\n', '--- &p !!pairs [a: &i [*p, *i]]\n',
         '--- !!set {x}\n', '--- - a\n', '--- !!python/tuple [1]\n', '--- [a\n', '--- @\n', '--- !!int x\n', '--- {[a]: b}\n']
 
 
@@ -420,8 +434,8 @@ def stream_case(r, ctx, i):
     ctx.case(core.h64(text), True, ['ndocs:%d' % len(docs)])
     if i < 2:
         ctx.sample({'stream': text})
-    for ln in yamlapi.loaders(['SafeLoader', 'CSafeLoader', 'FullLoader', 'CLoader'][:2 + (i % 3)]):
-        L = getattr(yaml, ln)
+    for ln in [n for n in ['SafeLoader', 'CSafeLoader', 'UnsafeLoader', 'CLoader', 'AppLoader', 'CAppLoader', 'FullLoader'][:2 + (i % 6)]
+               if n in globals() or hasattr(yaml, n)]:
         for op in ('load_all', 'compose_all', 'parse'):
             case = {'stream': text, 'docs': docs, 'op': op, 'loader': ln}
             ctx.crumb(case)
@@ -429,7 +443,7 @@ def stream_case(r, ctx, i):
 
 
 def check_stream(text, docs, op, ln, ctx, case):
-    L = getattr(yaml, ln)
+    L = getattr(yaml, ln, None) or globals()[ln]
     want = []
     err = None
     for d in docs:
